@@ -35,6 +35,8 @@ type op struct {
 type program struct {
 	ID      string `json:"id"`
 	Threads [][]op `json:"threads"`
+	Extra   string `json:"extra"` // "c0": a second reference to the promised client exists from the start
+	Budget  int    `json:"budget"` // schedules for this program (0: the default given on the command line)
 }
 
 // ---------------- one execution ----------------
@@ -175,7 +177,10 @@ func runOnce(p *program, ch vsched.Chooser) *vsched.Outcome {
 		w.handles["c1"] = capnp.NewClient(k1)
 		w.handles["c9"] = w.handles["c1"].AddRef() // a second reference to k1, used by thread 2
 		w.handles["c2"], w.promise = capnp.NewPromisedClient(p1)
-		vw.Log(J{"ev": "reset", "t": 0, "k": "", "op": "", "h": "", "new": "", "w": "", "res": "", "prog": p.ID})
+		if p.Extra == "c0" {
+			w.handles["c0"] = w.handles["c2"].AddRef()
+		}
+		vw.Log(J{"ev": "reset", "t": 0, "k": "", "op": "", "h": p.Extra, "new": "", "w": "", "res": "", "prog": p.ID})
 	}, threads, ch)
 	if out.Hang == "" {
 		out.Trace = append(out.Trace, J{"ev": "quiesce", "t": 0, "k": "", "op": "", "h": "", "new": "", "w": "", "res": ""})
@@ -243,7 +248,11 @@ func main() {
 			}
 			continue
 		}
-		full := vsched.Explore(budget, func(ch vsched.Chooser) *vsched.Outcome { return runOnce(&p, ch) }, func(o *vsched.Outcome) bool {
+		b := budget
+		if p.Budget > 0 {
+			b = p.Budget
+		}
+		full := vsched.Explore(b, func(ch vsched.Chooser) *vsched.Outcome { return runOnce(&p, ch) }, func(o *vsched.Outcome) bool {
 			report(o, o.Taken)
 			return o.Hang == ""
 		})
